@@ -279,6 +279,21 @@ def accounting_qualifier(inv, case, rec):
             return 'break-only-tour'
         if idle and all(all(a['type'] in ('departure', 'arrival') for a in t['acts']) for t in idle) and any(f in case.get('features', []) for f in ('reloads', 'resources')):
             return 'empty-tour-in-reload-problem'
+    if inv == 'ConditionalWithinDefined' and 'required-breaks' in case.get('features', []):
+        # a required break met while driving is written as a stop of its own AND once more as an activity of the next stop
+        # (break_writer.rs: the transit stop is inserted, then every stop that intersects the reserved time gets the break)
+        for t in rec['tours']:
+            n = sum(1 for a in t['acts'] if a['type'] == 'break')
+            veh = next((v for v in rec['vehicles'] if v['id'] == t['vehicle']), None)
+            if veh and n > veh['conditional'][t['shift'] - 1]['break'] and n <= 2 * veh['conditional'][t['shift'] - 1]['break']:
+                return 'required-break-written-twice'
+    if inv == 'PartitionJobs' and case.get('problem', {}).get('plan', {}).get('relations') and 'clustering' in case.get('features', []):
+        served = collections.Counter(a['job'] for t in rec['tours'] for a in t['acts'] if a['type'] in customer)
+        listed = collections.Counter(u['job'] for u in rec['unassigned'])
+        lost = [j['id'] for j in rec['jobs'] if not served[j['id']] and not listed[j['id']]]
+        both = [j['id'] for j in rec['jobs'] if served[j['id']] and listed[j['id']]]
+        if lost and both:
+            return 'relation-job-served-and-unassigned-neighbours-lost'
     return 'general'
 
 
@@ -334,7 +349,8 @@ def clustering_pass(pid, tier, cases, rnd, verdict):
             continue
         q = accounting_qualifier(name, by_id[rid], next(r for r in recs if r['id'] == rid))
         # the recorded defects of conditional jobs do not depend on clustering: same key as in the other passes
-        key = '%s/%s/%s' % (pid, name, q) if q != 'general' else '%s/Clustered%s/general' % (pid, name)
+        prefix = 'RequiredBreaks' if 'required-breaks' in by_id[rid].get('features', []) else 'Clustered'
+        key = '%s/%s/%s' % (pid, name, q) if q in ('break-only-tour', 'empty-tour-in-reload-problem') else '%s/%s%s/%s' % (pid, prefix, name, q)
         verdict.add(key, 'record %s (vicinity clustering) violates %s' % (rid, name), {'case': by_id[rid], 'solution': out[rid]['solution'], 'invariant': name})
     return {'clustering_cases': len(ccases), 'judged': len(recs), 'solutions_with_clustered_stops': clustered, 'required_break_cases': sum(1 for c in ccases if 'required-breaks' in c.get('features', [])),
             'required_break_solutions_with_break_stops': sum(1 for c in ccases if 'required-breaks' in c.get('features', []) and out[c['id']]['status'] == 'ok' and any(a['type'] == 'break' for t in out[c['id']]['solution'].get('tours', []) for st in t['stops'] for a in st['activities'])), 'status': dict(collections.Counter(o['status'] for o in out.values()))}
